@@ -24,13 +24,20 @@
                         R2 = X^2), cross candidates with at most m of n sampled cells near a segment,
                         and the numeric margin 3(m/n + A w(R2) + eps) + P < w(r2) kappa - A w(R2) - eps;
                         c03_reassembly_from_geometry states (d) with that premise instead.
-   Full statement refuted: c03_half_cell_bound_refuted (F10).  c03_reassembly_partial keeps score
+     (g) objects that live across calls (round 3, Scorer.v): a PAFScorer / inference model is built
+                        once and scores frames of different sizes; the distance-penalty length is a
+                        function of the PAF tensor of THE CURRENT CALL (ratio * max(h, w, 2E) * stride), the
+                        answer to a call does not depend on the calls before or after it, and the sampling
+                        grid of the ideal maps is a function of (size, stride) of the current frame, inverted
+                        by the reader that divides by the same stride.  Every score / penalty theorem of (c)
+                        is restated for the current call's length.
+   Full statement refuted: c03_half_cell_bound_refuted (F10), c03_long_edge_refuted (F24).  c03_reassembly_partial keeps score
    separation as a HYPOTHESIS (measured by the harness on the real scores of every scene);
    c03_reassembly_from_geometry derives it for the documented geometric sub-class (the harness evaluates
    the geometric premise on every scene and checks the derived bounds against the real scores). *)
 From Coq Require Import List ZArith QArith Qabs Reals Qreals Relations.
 Import ListNotations.
-From SV Require Import C03.BottomUp C03.Lemmas C03.IdealPaf C03.SepLemmas.
+From SV Require Import C03.BottomUp C03.Lemmas C03.IdealPaf C03.SepLemmas C03.Scorer C03.ScorerLemmas.
 Local Open Scope Q_scope.
 
 (* ------------------------------------------------------------------ (a) decode *)
@@ -403,3 +410,127 @@ Proof. split; reflexivity. Qed.
 Example ex_c03_groups : (* chain 0-1-2-3 with node 2 missing: one group {0,1}; node 3 is alone *)
   groups 4 [(0, 1); (1, 2); (2, 3)]%nat [true; true; false; true] = [[0; 1]%nat].
 Proof. reflexivity. Qed.
+
+(* ------------------------------------------------------------------ (g) objects that live across calls *)
+(* ONE scorer object, any history: the answer to a call is the answer to that call alone (nothing is
+   kept from earlier frames, nothing is changed by later ones) *)
+Theorem c03_scorer_calls_independent : forall s taus pre c post,
+  nth_error (score_calls s taus (pre ++ c :: post)) (length pre) = Some (score_call s taus c).
+Proof. exact calls_independent. Qed.
+Print Assumptions c03_scorer_calls_independent.
+
+Theorem c03_scorer_one_result_per_call : forall s taus cs, length (score_calls s taus cs) = length cs.
+Proof. exact score_calls_length. Qed.
+Print Assumptions c03_scorer_one_result_per_call.
+
+(* the decision  score >= tau  of a long-lived scorer on a candidate of call c is the real comparison
+   with the distance-penalty length of c's OWN tensor: ratio * max(h, w, 2E) * stride *)
+Theorem c03_score_decision_uses_current_size : forall s c S len2 tau b,
+  0 < len2 -> (0 < s_n s)%nat -> 0 <= s_ratio s -> (0 <= s_ps s)%Z ->
+  score_geb S len2 (s_n s) (call_M s c) (s_wt s) tau = Some b ->
+  (b = true <-> (Q2R tau <= score_R S len2 (s_n s) (call_M s c) (s_wt s))%R).
+Proof. exact score_decision_current_call. Qed.
+Print Assumptions c03_score_decision_uses_current_size.
+
+(* no penalty up to  max_edge_length_ratio * (largest dimension of the CURRENT PAF tensor) * stride *)
+Theorem c03_penalty_zero_within_current_size : forall s c len2,
+  0 < len2 -> 0 <= s_ratio s -> (0 <= s_ps s)%Z ->
+  len2 <= call_M s c * call_M s c -> penalty_R len2 (call_M s c) (s_wt s) = 0%R.
+Proof. exact penalty_zero_current_call. Qed.
+Print Assumptions c03_penalty_zero_within_current_size.
+
+(* the length grows with the tensor, and a smaller length only lowers scores: a length kept from an
+   earlier, smaller frame would penalise more *)
+Theorem c03_max_edge_length_monotone : forall ratio h w ch ps h' w' ch',
+  0 <= ratio -> (0 <= ps)%Z -> (h <= h')%Z -> (w <= w')%Z -> (ch <= ch')%Z ->
+  max_edge_length ratio h w ch ps <= max_edge_length ratio h' w' ch' ps.
+Proof. exact max_edge_length_monotone. Qed.
+Print Assumptions c03_max_edge_length_monotone.
+
+Theorem c03_penalty_monotone_in_length : forall len2 M M' wt,
+  0 < len2 -> 0 <= wt -> M <= M' -> (penalty_R len2 M wt <= penalty_R len2 M' wt)%R.
+Proof. exact penalty_monotone_in_M. Qed.
+Print Assumptions c03_penalty_monotone_in_length.
+
+(* F24: an edge longer than max_edge_length / min_line_scores (= the largest side of the network
+   input for the defaults 1/4, 1/4) is NEVER accepted, however good the PAF is (mean dot product
+   with the unit direction <= 1, dist_penalty_weight 1) ... *)
+Theorem c03_long_edge_never_accepted : forall S len2 n M tau,
+  0 < len2 -> (0 < n)%nat -> 0 <= M -> 0 < tau ->
+  (Q2R S <= INR n * sqrt (Q2R len2))%R ->
+  M * M < tau * tau * len2 ->
+  score_geb S len2 n M 1 tau = Some false.
+Proof. exact long_edge_never_accepted. Qed.
+Print Assumptions c03_long_edge_never_accepted.
+
+(* ... stated with the decidable selector  sel_long_edge len2 M tau  <->  M^2 < tau^2 len2  ... *)
+Theorem c03_long_edge_selected_never_accepted : forall S len2 n M tau,
+  0 < len2 -> (0 < n)%nat -> 0 <= M -> 0 < tau ->
+  (Q2R S <= INR n * sqrt (Q2R len2))%R ->
+  sel_long_edge len2 M tau = true ->
+  score_geb S len2 n M 1 tau = Some false.
+Proof. exact long_edge_selected_never_accepted. Qed.
+Print Assumptions c03_long_edge_selected_never_accepted.
+
+Theorem c03_long_edge_selector_spec : forall len2 M tau,
+  sel_long_edge len2 M tau = true <-> M * M < tau * tau * len2.
+Proof. exact sel_long_edge_spec. Qed.
+Print Assumptions c03_long_edge_selector_spec.
+
+(* ... and OUTSIDE the selector the distance penalty (weight 1) is at least tau - 1: a candidate whose
+   mean dot product with the unit direction is 1 still reaches tau; the geometric premise of (f) asks
+   for penalty 0 on true pairs, which c03_penalty_zero_within_current_size gives up to max_edge_length *)
+Theorem c03_penalty_bound_outside_long_edge_selector : forall len2 M tau,
+  0 < len2 -> 0 <= M -> 0 < tau -> tau <= 1 -> sel_long_edge len2 M tau = false ->
+  (Q2R tau - 1 <= penalty_R len2 M 1)%R.
+Proof. exact penalty_bound_outside_selector. Qed.
+Print Assumptions c03_penalty_bound_outside_long_edge_selector.
+
+(* ... so the full statement fails for such an animal: 41 x 31 px frame at stride 1, a field that is
+   the exact unit direction of the labelled edge (0,0) -> (40,30) in every cell, default scorer:
+   the only candidate is rejected at min_line_scores 1/4 (no instance is returned) *)
+Theorem c03_long_edge_refuted :
+  exists (s : scorer) (c : call),
+    s = default_scorer 1 /\ c_paf c = const_paf 31 41 1 (4 # 5) (3 # 5) /\
+    c_cands c = [(0, 0, 40, 30, 0%Z)] /\
+    map (fun r => snd r) (score_call s [1 # 4] c) = [[Some false]].
+Proof. exact long_edge_refuted_witness. Qed.
+Print Assumptions c03_long_edge_refuted.
+
+(* the sampling grid of the ideal maps: sample j of a frame is x = j * stride (make_grid_vectors),
+   for the size and stride of THAT frame ... *)
+Theorem c03_grid_sample_position : forall size s j, (j < Z.to_nat (grid_len size s))%nat ->
+  nth_error (grid_vector size s) j = Some (cell_x s (Z.of_nat j)).
+Proof. exact grid_vector_nth. Qed.
+Print Assumptions c03_grid_sample_position.
+
+(* ... two grids of the same shape but different strides sample different positions ... *)
+Theorem c03_grid_not_determined_by_shape : forall s s' j,
+  (j <> 0)%Z -> s <> s' -> ~ cell_x s j == cell_x s' j.
+Proof. exact grid_position_depends_on_stride. Qed.
+Print Assumptions c03_grid_not_determined_by_shape.
+
+(* ... and the reader (make_line_subs, dividing by the stride of the scorer) inverts the writer's
+   grid of the same stride exactly: a line point on the sample (j * ps, i * ps) reads cell (i, j) *)
+Theorem c03_reader_inverts_writer_grid : forall ps h w k i j dx dy n,
+  (0 < ps)%Z -> (0 <= i < h)%Z -> (0 <= j < w)%Z ->
+  line_sub (cell_x ps j) (cell_y ps i) dx dy k ps h w n 0 = (i, j, (2 * k)%Z, (2 * k + 1)%Z).
+Proof. exact reader_inverts_writer_grid. Qed.
+Print Assumptions c03_reader_inverts_writer_grid.
+
+(* the per-call clause has content: keeping the length of the first (4 x 4) call flips the decision on
+   the second (16 x 16) call *)
+Example ex_c03_stale_length_changes_decision :
+  map (map (fun r => snd r)) (score_calls (default_scorer 1) [1 # 4] stale_calls) = [[[Some true]]; [[Some true]]] /\
+  map (map (fun r => snd r)) (score_calls_stale (default_scorer 1) [1 # 4] None stale_calls) = [[[Some true]]; [[Some false]]] /\
+  map (fun c => Qred (call_M (default_scorer 1) c)) stale_calls = [1; 4].
+Proof. exact stale_length_changes_decision. Qed.
+
+(* same grid shape (64 samples), other stride: sample 3 is x = 6 (128 px, stride 2) or x = 12 (256 px,
+   stride 4); the stride-4 reader finds x = 12 in cell 3 and x = 6 in cell 2 *)
+Example ex_c03_grid_same_shape_other_stride :
+  length (grid_vector 128 2) = length (grid_vector 256 4) /\
+  nth_error (grid_vector 128 2) 3 = Some (6 # 1) /\ nth_error (grid_vector 256 4) 3 = Some (12 # 1) /\
+  line_sub 12 12 12 12 0 4 64 64 1 0 = (3, 3, 0, 1)%Z /\
+  line_sub 6 6 6 6 0 4 64 64 1 0 = (2, 2, 0, 1)%Z.
+Proof. exact grid_same_shape_other_stride. Qed.
